@@ -43,6 +43,16 @@ def run(pm, ctx):
             continue
         fam = next((v for k, v in FAMILY.items() if K.name.endswith(k)), None)
         site = f"{K.name}.get_gemini"
+        stores = [n for n in ast.walk(gg) if isinstance(n, ast.Attribute) and isinstance(n.ctx, ast.Store)]
+        hist = [n for n in ast.walk(gg) if isinstance(n, ast.Call) and isinstance(n.func, ast.Name) and n.func.id in ("getattr", "hasattr")]
+        if stores or hist:
+            bad = stores[0] if stores else hist[0]
+            st_ = bad
+            while not isinstance(st_, ast.stmt):
+                st_ = st_._parent
+            ctx.violation("C11-a", K.unit.relpath, site, norm_src(st_)[:160], "get_gemini keeps state on the estimator (a cached objective): hyper-parameters changed by a later "
+                          "set_params are not forwarded to the GEMINI that is used", line=bad.lineno, site=site)
+            continue
         rets = [n for n in ast.walk(gg) if isinstance(n, ast.Return)]
         if fam is None or len(rets) != 1 or not isinstance(rets[0].value, ast.Call) or not isinstance(rets[0].value.func, ast.Name):
             ctx.undecided_site("C11-a", site, "override of an unknown family or not a single constructor call")
